@@ -190,7 +190,16 @@ func checkPieces(wantStripped string, pieces []string, bound bool, u rag.SizeUni
 			}
 		}
 	}
-	return strings.Join(sigs, "+"), strings.Join(det, "\n")
+	return first(sigs), strings.Join(det, "\n")
+}
+
+// first returns the signature of the first violated clause (fixed clause order). The detail text
+// always lists every violated clause; one stable class per case keeps known-finding matching exact.
+func first(sigs []string) string {
+	if len(sigs) == 0 {
+		return ""
+	}
+	return sigs[0]
 }
 
 func bucket(n int) string {
@@ -423,14 +432,22 @@ func checkOverlap(ov string, ownStripped string, maxOverlap int) (string, string
 		det = append(det, "overlap text is not valid UTF-8 (a multi-byte character was cut): "+show(ov))
 	}
 	if s := stripWS(ov); !strings.HasSuffix(ownStripped, s) {
-		sigs = append(sigs, "overlap-not-suffix")
+		// classes of the same clause, told apart by what the overlap text is instead
+		class := "overlap-not-suffix"
+		switch {
+		case ownStripped != "" && len(s) > len(ownStripped) && strings.HasSuffix(s, ownStripped):
+			class += ":reaches-past-own-content" // the whole own content plus text from further back (the neighbour's overlap prefix)
+		case strings.Contains(ownStripped, s):
+			class += ":inner-part" // text from the middle / start of the chunk
+		}
+		sigs = append(sigs, class)
 		det = append(det, fmt.Sprintf("overlap text (modulo white space) is not a suffix of the previous chunk's own content\n overlap: %s\n previous own content: %s", show(ov), show(ownStripped)))
 	}
 	if n := utf8.RuneCountInString(ov); n > maxOverlap {
 		sigs = append(sigs, "overlap-exceeds-max")
 		det = append(det, fmt.Sprintf("overlap text has %d characters (%d bytes) > MaxOverlap %d: %s", n, len(ov), maxOverlap, show(ov)))
 	}
-	return strings.Join(sigs, "+"), strings.Join(det, "\n")
+	return first(sigs), strings.Join(det, "\n")
 }
 
 // ---- (ovl) OverlapGenerator.GenerateOverlap ------------------------------------------------
@@ -510,9 +527,15 @@ func applySpace(e *harness.Env) {
 			own[i] = chunkKinds[k].mk(i)
 		}
 		id := strings.Join(ids, "|")
+		mb := 0
+		for _, o := range own {
+			if len(o) != utf8.RuneCountInString(o) {
+				mb = 1
+			}
+		}
 		for _, oc := range grid {
 			for _, ctx := range []int{0, 1} {
-				desc := fmt.Sprintf("space=apply chunks=%s %s ctx=%d", id, oc.part, ctx)
+				desc := fmt.Sprintf("space=apply chunks=%s mb=%d %s ctx=%d", id, mb, oc.part, ctx)
 				if !e.Own(desc) {
 					continue
 				}
@@ -561,18 +584,14 @@ func applySpace(e *harness.Env) {
 
 // checkApplied checks the chunks returned by ApplyOverlapToChunks / ChunkWithOverlapEnabled
 // against the chunks' own contents (texts before any overlap was applied). ctxOf(i) is the
-// context line the configuration prepends to chunk i ("" for none).
+// context line the configuration prepends to chunk i ("" for none). The signature is that of the
+// first violated clause of the first offending chunk; the detail lists all of them.
 func checkApplied(own []string, res []*rag.ChunkWithOverlap, maxOverlap int, ctxOf func(i int) string) (sig, det string, overlapped int) {
 	if len(res) != len(own) {
 		return "chunk-count-changed", fmt.Sprintf("%d chunks in, %d out", len(own), len(res)), 0
 	}
 	var sigs, dets []string
 	add := func(s, d string) {
-		for _, x := range sigs {
-			if x == s {
-				return
-			}
-		}
 		sigs = append(sigs, s)
 		dets = append(dets, d)
 	}
@@ -594,17 +613,15 @@ func checkApplied(own []string, res []*rag.ChunkWithOverlap, maxOverlap int, ctx
 			continue
 		}
 		if s, d := checkOverlap(r.OverlapPrefix, stripWS(own[i-1]), maxOverlap); s != "" {
-			for _, part := range strings.Split(s, "+") {
-				add(part, fmt.Sprintf("chunk %d: %s", i, d))
-			}
+			add(s, fmt.Sprintf("chunk %d: %s", i, d))
 		}
 		want := stripWS(ctxOf(i)) + stripWS(r.OverlapPrefix) + ownS
 		if got := stripWS(r.Text); got != want {
 			add("text-not-conserved", fmt.Sprintf("chunk %d text is not [context] + overlap + own content: %s", i, firstDiff(want, got)))
 		}
-		if !utf8.ValidString(r.Text) {
-			add("invalid-utf8-piece", fmt.Sprintf("chunk %d text is not valid UTF-8: %s", i, show(r.Text)))
+		if utf8.ValidString(r.OverlapPrefix) && !utf8.ValidString(r.Text) {
+			add("invalid-utf8-piece", fmt.Sprintf("chunk %d text is not valid UTF-8 although its overlap prefix and own content are: %s", i, show(r.Text)))
 		}
 	}
-	return strings.Join(sigs, "+"), strings.Join(dets, "\n"), overlapped
+	return first(sigs), strings.Join(dets, "\n"), overlapped
 }
